@@ -55,7 +55,16 @@ NOTES = {
     "C07_j": "NOT detected - outside the quantifier (an environment that already drew for one model is handed to a second model with set_model)",
     "C17_j": "NOT detected by C17 - it is C04's defect class (duplicate-id check on a component-less resident; C04's check detects the same edit, C04_a)",
     "C18_i": "NOT detected - outside the quantifier (a pre hook that imports the group's module or rebinds its class name)",
+    "C04_l": "only whole-cell coordinates outside a grid: out-of-grid placements half a cell nearer to the grid",
+    "C11_l": "homogeneous integer lists only: lists mixing numbers and text, lists of tuples; a value must come back with the Python type it was supplied with",
+    "C13_l": "tag values were the same small-int objects: equal but separately created ints (1000, 70000, -7)",
+    "C15_k": "numeric parameters declared as lists only: a text parameter declared as the bare string, through the dictionary and through add_parameter",
+    "C16_k": "grids of distinct values only: grids listing equal values more than once (1, 1.0, True - told apart by type in the fixture)",
+    "C18_k": "declared `end` never 0: systems that run at timestep 0 only",
+    "C19_k": "no format-string characters in names: `%s`, `50%`, `{0}`, `%(x)s`, newline, backslash",
+    "C08_l": "NOT detected - outside the quantifier (the coordinate on an axis of extent 0, which the statement leaves open: containment and landing are claimed for axes of positive extent; DESIGN 3.2)",
 }
+ROUNDS = "abcdefghijklmnopqrstuvwxyz"
 
 
 def main():
@@ -73,16 +82,28 @@ def main():
         else:
             fv = "detected"
         rows.append(f"| {name} | {m['what'][:170].replace('|', '/')} | {m['needs'][:150].replace('|', '/')} | {det} | {fv} |")
+    total = len(rows)
+    own = sum(1 for r in rows if r.split(" | ")[3] not in ("MISSED",) and r.split(" | ")[3].split(",")[0] == r.split(" | ")[0][2:5])
+    outside = sum(1 for n in NOTES.values() if n.startswith("NOT detected - outside"))
+    other = total - own - outside
+    firsts = {}
+    for d in sorted(glob.glob(os.path.join(VERIF, "seeded", "*", ""))):
+        name = os.path.basename(d.rstrip("/"))
+        rnd = ROUNDS.index(name[-1]) // 2 + 1
+        f = json.load(open(d + "result_first.json")) if os.path.exists(d + "result_first.json") else None
+        missed = (name in NOTES) if f is None else not f.get("detected_by")
+        firsts[rnd] = firsts.get(rnd, 0) + (1 if missed else 0)
     head = ("\n### 11.5 Independently seeded changes (`/verif/seeded/<id>/`)\n\n"
-            "Two hundred changes were produced in five rounds by fresh sub-agents that saw only the text of one property and a scratch worktree "
-            "(two per property and round; ids `_a`,`_b` = round 1, `_c`,`_d` = round 2, `_e`,`_f` = round 3, `_g`,`_h` = round 4, `_i`,`_j` = round 5; the agents of later rounds were told "
+            f"{total} changes were produced in {max(firsts)} rounds by fresh sub-agents that saw only the text of one property and a scratch worktree "
+            "(two per property and round; ids `_a`,`_b` = round 1, `_c`,`_d` = round 2, `_e`,`_f` = round 3, `_g`,`_h` = round 4, `_i`,`_j` = round 5, `_k`,`_l` = round 6; the agents of later rounds were told "
             "what the earlier rounds had produced and asked for something different; round 4 was asked to stay strictly inside the quantifier text, "
-            "round 5 to look for the least obvious failure). Each passes the 110 tests, and its demonstration fails with the change and passes without it "
+            "round 5 to look for the least obvious failure, round 6 to prefer code no earlier change had touched). Each passes the 110 tests, and its demonstration fails with the change and passes without it "
             "(re-confirmed by `tools/seedcheck.py import`). `tools/seedcheck.py run` applies a patch to `/repo`, runs the property's quick check "
             "and undoes it (`git checkout -- .`); `run --scratch` does the same on a scratch copy (`VERIF_REPO`) so that runs can go in parallel. "
-            "**195 of the 200 are detected by the quick check of their property** (`result_quick.json`, current checks); the five that are not need a "
+            f"**{own} of the {total} are detected by the quick check of their own property** (`result_quick.json`, current checks), {other} by the check of the "
+            f"property whose defect class it is (`C17_j`, by C04); the {outside} that are not detected need a "
             "situation outside the property's quantifier and are marked in the table. "
-            "The checks as they stood when a round arrived missed 8 of round 1, 17 of round 2, 16 of round 3, 5 of round 4 and 18 of round 5 (`result_first.json`); each miss was a gap in what the *drivers* "
+            "The checks as they stood when a round arrived missed " + ", ".join(f"{firsts[r]} of round {r}" for r in sorted(firsts)) + " (`result_first.json`); each miss was a gap in what the *drivers* "
             "exercised, closed as noted - the specifications' obligations were not changed for any of them and no check was loosened. "
             "Two patches (`C05_b`, `C05_c`) were re-based onto the hook commit (`patch_before_hook.diff` keeps the original).\n\n"
             "| id | change | needs | detected by | first version of the checks |\n|---|---|---|---|---|\n")
